@@ -295,6 +295,9 @@ type crashResult struct {
 
 func runCrashCase(cc crashCase) crashResult {
 	var res crashResult
+	// the data directory is a volume of its own (the usual deployment): nothing can be renamed into it from elsewhere
+	vos.DataDirIsMountPoint = true
+	defer func() { vos.DataDirIsMountPoint = false }()
 	if cc.Conc {
 		return runCrashConcurrent(cc)
 	}
